@@ -36,7 +36,7 @@ type Case struct {
 
 func genCase(t *rapid.T) Case {
 	fn := rapid.Custom(func(t *rapid.T) Fn {
-		f := Fn{Out: rapid.SampledFrom([]string{"nil", "nil", "nil", "err", "err", "err", "canceled", "canceled", "wrapcanceled", "deadline", "block", "block"}).Draw(t, "out")}
+		f := Fn{Out: rapid.SampledFrom([]string{"nil", "nil", "nil", "err", "err", "err", "canceled", "canceled", "wrapcanceled", "deadline", "block", "block", "hang"}).Draw(t, "out")}
 		f.Nil = rapid.IntRange(0, 7).Draw(t, "isnil") == 0
 		if f.Out == "block" {
 			f.Then = rapid.SampledFrom([]string{"ctx", "nil", "err"}).Draw(t, "then")
@@ -96,6 +96,9 @@ func body(c *sched.Ctl, cs Case, v *ev.Verdict) {
 	fns := make([]ccall.CallConcurrentlyFunc, len(cs.Fns))
 	errOf := func(i int) error { return fmt.Errorf("fn-error-%d", i) }
 	errs := make([]error, len(cs.Fns))
+	// functions of kind "hang" do not look at their context at all: they are busy until the
+	// harness lets them go, which is after the quiescence verdict
+	hangRelease := make(chan struct{})
 	for i, spec := range cs.Fns {
 		st := &fnState{spec: spec}
 		sts[i] = st
@@ -132,6 +135,14 @@ func body(c *sched.Ctl, cs Case, v *ev.Verdict) {
 				// an error that merely wraps context.Canceled, or context.DeadlineExceeded (say from
 				// the function's own timeout), is an error "other than context.Canceled"
 				return errs[i]
+			case "hang":
+				if len(cs.Fns) == 1 {
+					// a single function is run on the caller's goroutine: the call is that function
+					<-ctx.Done()
+					return ctx.Err()
+				}
+				<-hangRelease
+				return nil
 			default:
 				<-ctx.Done()
 				c.Park("h.fn.unblocked")
@@ -278,6 +289,7 @@ func body(c *sched.Ctl, cs Case, v *ev.Verdict) {
 
 	c.PassThrough()
 	hadViol := len(v.Viol) > 0
+	close(hangRelease)
 	cancel()
 	c.Wait()
 	hm.Lock()
@@ -342,6 +354,12 @@ func body(c *sched.Ctl, cs Case, v *ev.Verdict) {
 	}
 	if cs.Deadline {
 		v.Class("caller-context-ends-with-deadline-exceeded")
+	}
+	for _, f := range cs.Fns {
+		if !f.Nil && f.Out == "hang" && len(cs.Fns) > 1 {
+			v.Class("function-ignores-its-context")
+			break
+		}
 	}
 }
 
